@@ -50,6 +50,9 @@ pub struct Subject {
     pub encode_faulty: Option<Box<dyn Fn(u64, &WritePlan) -> EncodeOut + Send + Sync>>,
     /// The decoder entry point rejects trailing bytes itself (e.g. `cbor_decode`).
     pub rejects_trailing: bool,
+    /// Hand-crafted (valid but unusual, or subtly invalid) encodings with the expected verdict:
+    /// Some(true) = must decode, Some(false) = must be rejected, None = only totality is required.
+    pub crafted: Option<Box<dyn Fn(u64) -> (Vec<u8>, Option<bool>) + Send + Sync>>,
 }
 
 #[derive(Clone, Debug, Serialize, Deserialize, PartialEq)]
